@@ -1698,15 +1698,40 @@ def _constructs(repo, cg, g: FuncInfo, e, cls_name: str, depth=0) -> bool:
     return False
 
 
+_REGISTRY_EXPR: Dict[int, Tuple[ast.AST, object]] = {}     # id(lookup node) -> (expression naming the registry, module it sits in)
+
+
+def _registry_expr(repo, g: FuncInfo, recv):
+    """The SUBFIELD_SERIALIZERS expression a lookup receiver denotes: the path itself, or - through a same-module
+    accessor function - the registry it returns by default (returns of its own parameters are injected overrides)."""
+    if (ap(recv) or "").endswith("SUBFIELD_SERIALIZERS"):
+        return recv, g.module
+    if isinstance(recv, ast.Call) and isinstance(recv.func, ast.Name):
+        for h in repo.funcs.get(recv.func.id, []):
+            if h.module is g.module and h.cls is None and h.parent_fn is None:
+                hps = {a.arg for a in h.node.args.args + h.node.args.kwonlyargs}
+                rets = [n.value for n in walk(h.node) if isinstance(n, ast.Return) and n.value is not None]
+                regs = [r_ for r_ in rets if (ap(r_) or "").endswith("SUBFIELD_SERIALIZERS")]
+                if regs and all(r_ in regs or (isinstance(r_, ast.Name) and r_.id in hps) for r_ in rets):
+                    return regs[0], h.module
+    return None
+
+
 def _registry_lookups(repo, fns):
     out = []
     for g in fns:
         for n in walk(g.node, into_defs=True):
-            if isinstance(n, ast.Call) and isinstance(n.func, ast.Attribute) and n.func.attr == "get" and \
-                    (ap(n.func.value) or "").endswith("SUBFIELD_SERIALIZERS") and n.args:
-                out.append((g, n, n.args[0]))
-            elif isinstance(n, ast.Subscript) and (ap(n.value) or "").endswith("SUBFIELD_SERIALIZERS") and isinstance(n.ctx, ast.Load):
-                out.append((g, n, n.slice))
+            recv, key = None, None
+            if isinstance(n, ast.Call) and isinstance(n.func, ast.Attribute) and n.func.attr == "get" and n.args:
+                recv, key = n.func.value, n.args[0]
+            elif isinstance(n, ast.Subscript) and isinstance(n.ctx, ast.Load):
+                recv, key = n.value, n.slice
+            if recv is None:
+                continue
+            reg = _registry_expr(repo, g, recv)
+            if reg is not None:
+                _REGISTRY_EXPR[id(n)] = reg
+                out.append((g, n, key))
     return out
 
 
@@ -1720,9 +1745,9 @@ def r3(ctx):
     tf = repo.fn("HumanMessageSerializer.to_human_string")
 
     def registry_module_ok(g, node):
-        base = node.func.value if isinstance(node, ast.Call) else node.value
+        base, bmod = _REGISTRY_EXPR.get(id(node), (node.func.value if isinstance(node, ast.Call) else node.value, g.module))
         root = (ap(base) or "").split(".")[0]
-        r = resolve_name(repo, g.module, root)
+        r = resolve_name(repo, bmod, root)
         return bool(r) and isinstance(r[0], tuple) and r[0][1] == "hippolyzer.lib.base.serialization"
 
     # ---- parser
@@ -2756,7 +2781,69 @@ def r17(ctx):
     ctx.note("C11.R17: NaN payload bits are not carried by the text (every quiet NaN prints as nan / -nan): documented limit")
 
 
+def r18(ctx):
+    """Wire readers hand on the value they read: passing it through a precision-limited text form (`float("%.8g" % v)`,
+    format(v, ".6f")) makes different wire values decode alike - in the plain-data form the text is printed from."""
+    import re as _re
+    repo = ctx.repo
+    ctx.rule("C11.R18", "wire readers (deserialize / decode in serialization.py, templates.py) do not pass the value they return "
+                        "through a precision-limited number format")
+    spec = _re.compile(r"%[-+ #0]*\d*\.(\d+)([gGeEfF])")
+    fspec = _re.compile(r"\.(\d+)([gGeEfF])")
+
+    def lossy(text: str, pat) -> Optional[str]:
+        for m_ in pat.finditer(text):
+            prec, kind = int(m_.group(1)), m_.group(2).lower()
+            if kind == "f" or (kind == "g" and prec < 17) or (kind == "e" and prec < 16):
+                return m_.group(0)
+        return None
+    n = 0
+    for rel in ("hippolyzer/lib/base/serialization.py", "hippolyzer/lib/base/templates.py"):
+        mod = repo.module(rel)
+        for lst in repo.classes.values():
+            for ci in lst:
+                if ci.module is not mod:
+                    continue
+                for mname in ("deserialize", "decode"):
+                    m = ci.methods.get(mname)
+                    if m is None:
+                        continue
+                    n += 1
+                    bad = None
+                    for x in walk(m.node, into_defs=True):
+                        if isinstance(x, ast.BinOp) and isinstance(x.op, ast.Mod):
+                            texts = []
+                            if isinstance(x.left, ast.Constant) and isinstance(x.left.value, str):
+                                texts.append(x.left.value)
+                            elif isinstance(x.left, ast.Attribute) and (ap(x.left) or "").startswith("self."):
+                                # a format kept on the instance: every string constant assigned to that attribute in the class
+                                for k in repo.mro(ci):
+                                    for meth in k.methods.values():
+                                        for st in stores(meth.node, into_defs=False):
+                                            if st.path == ap(x.left) and st.value is not None:
+                                                texts += [c_.value for c_ in ast.walk(st.value) if isinstance(c_, ast.Constant)
+                                                          and isinstance(c_.value, str)]
+                                cv = repo.class_attr(ci, x.left.attr)
+                                if isinstance(cv, ast.Constant) and isinstance(cv.value, str):
+                                    texts.append(cv.value)
+                            for t in texts:
+                                bad = bad or lossy(t, spec)
+                        elif isinstance(x, ast.FormattedValue) and x.format_spec is not None:
+                            t = "".join(str(v.value) for v in x.format_spec.values if isinstance(v, ast.Constant))
+                            bad = bad or lossy(t, fspec)
+                        elif isinstance(x, ast.Call) and ap(x.func) == "format" and len(x.args) > 1 and \
+                                isinstance(x.args[1], ast.Constant) and isinstance(x.args[1].value, str):
+                            bad = bad or lossy(x.args[1].value, fspec)
+                    if bad is not None or mname == "deserialize":
+                        ctx.ob("C11.R18", f"{ci.name}.{mname}: the value read is not squeezed through a precision-limited number format",
+                               bad is None, m.where, "" if bad is None else
+                               f"`{bad}` keeps fewer digits than the wire value has: an F32 needs 9 significant digits, an F64 17 - wire "
+                               f"values that differ beyond that decode alike, print alike and re-encode as another value")
+    ctx.floor("C11.R18", "deserialize / decode methods of the codec modules", n, 25)
+
+
 def run(ctx):
+    r18(ctx)
     r17(ctx)
     r16(ctx)
     r15(ctx)
